@@ -152,6 +152,27 @@ Definition recreate (h : header) (bytes : list N) (c : config) : option (header 
             end, out)
   end end.
 
+(* ---- the author / committer names of the re-created commit ----
+   author_strict decodes the bytes of the old commit with its declared encoding (no header:
+   UTF-8; an unknown label or undecodable bytes: the command refuses); the text is written as
+   UTF-8 by the gitoxide path (i18n.commitEncoding unset or UTF-8) and - since fix F44 - encoded
+   with the configured single-byte encoding before it is handed to git commit-tree. *)
+Definition recreate_name (h : header) (bytes : list N) (c : config) : option (list N) :=
+  let text : option (list N) :=
+    match h with
+    | HAbsent | HUtf8 => if utf8_valid bytes then Some (utf8_to_text (length bytes) bytes) else None
+    | HLatin1 | HW1252 => Some (map dec_w1252 bytes)
+    | HUnknown => None
+    end in
+  match text with
+  | None => None
+  | Some t =>
+      match codec_of_config c with
+      | None | Some KUtf8 => Some (utf8_of_text t)
+      | Some KW1252 => enc_w1252 t
+      end
+  end.
+
 (* ---- what git shows (git log --encoding=UTF-8): None = git cannot decode ----
    glibc's CP1252 leaves five bytes undefined; iconv fails on them and git shows the raw bytes *)
 Definition w1252_undefined (b : N) : bool :=
